@@ -18,7 +18,7 @@ func init() {
 		Variant{Prop: "C14", Name: "handler-gets-wrong-height", File: sd, Expect: "C14.b",
 			Old: "\t\tif err := deleteFn(ctx, height); err != nil {", New: "\t\tif err := deleteFn(ctx, height+1); err != nil {"},
 		Variant{Prop: "C14", Name: "handlers-called-in-driver-too", File: sd, Expect: "C14.c",
-			Old: "\tfor height := from; height < to; height++ {\n\t\terr := s.deleteSingle(ctx, height, onDelete)", New: "\tfor _, fn := range s.onDelete {\n\t\t_ = fn(ctx, from)\n\t}\n\tfor height := from; height < to; height++ {\n\t\terr := s.deleteSingle(ctx, height, onDelete)"},
+			Old: "\tfor height := from; height < to; height++ {\n\t\tif h := s.pending", New: "\tfor _, fn := range s.onDelete {\n\t\t_ = fn(ctx, from)\n\t}\n\tfor height := from; height < to; height++ {\n\t\tif h := s.pending"},
 		Variant{Prop: "C14", Name: "handler-list-read-without-lock", File: sd, Expect: "C14.c",
 			Old: "\ts.onDeleteMu.Lock()\n\tonDelete := slices.Clone(s.onDelete)\n\ts.onDeleteMu.Unlock()\n\n\tfor height := from; height < to; height++ {", New: "\tonDelete := slices.Clone(s.onDelete)\n\n\tfor height := from; height < to; height++ {"},
 		Variant{Prop: "C14", Name: "wipe-before-deletion", File: sd, Expect: "C14.d",
